@@ -67,6 +67,9 @@ EncodeTags(e) ==
   IN OutcomeTags(e) \o AcceptTags(e, j.rep, j.dontcare)
      \o (IF r.kind # "ok" \/ ~HasPx(e) THEN <<>>
          ELSE (IF ~j.rd.ok THEN <<"structure-" \o j.rd.why>>
+                                    \* the check character drawn is not the one the data characters demand: that is also C14's clause
+                                    \* "when the symbol draws a check character, it is the one with that value"
+                                    \o (IF j.rd.why = "check" /\ j.hascs THEN <<"cs">> ELSE <<>>)
                ELSE (IF j.rd.runes # j.runes THEN <<"decode">> ELSE <<>>)
                     \o (IF r.content # j.content THEN <<"content">> ELSE <<>>)
                     \o (IF j.hascs /\ (~r.hascs \/ r.cs # j.cs) THEN <<"cs">> ELSE <<>>))
